@@ -5,8 +5,9 @@
    the code with fixes/C15-*.diff applied) from the empty manager over buffers of nm metadata records and
    nv value slots.  [holds_with g c ops obs spec0] evaluates clause [c] of the oracle (Oracle/C15Oracle.v)
    after every operation, against book-keeping derived from the history alone, for as long as the
-   history respects the API contract [contract_step] (free / set_counter_value on live ids only, clock
-   and cool-down within i64 milliseconds, u64 values, a key callback that stays inside its view).
+   history respects the API contract [contract_step] (free on live ids only, value writes on live ids or - late writes of a former
+   owner - on freed ids not handed out again, clock and cool-down within i64 milliseconds, u64 values, a key
+   callback that stays inside its view).
    All theorems quantify over every operation list, every pair of slot counts inside the geometry
    [cfg_ok] (offsets fit i32) and both build modes. *)
 Require Import V.Base.MachineInt.
@@ -121,14 +122,16 @@ Theorem C15_v0_iter_stops_at_reclaimed :
 Proof. exact v0_iter_stops_at_reclaimed. Qed.
 Print Assumptions C15_v0_iter_stops_at_reclaimed.
 
-(* non-vacuity: a history that stays inside the contract to its end, with a refused reuse before the
-   deadline, a reuse at the deadline, an exhausted manager and rejected arguments; the geometry holds for
+(* non-vacuity: a history that stays inside the contract to its end, with a late value write on a freed id,
+   a refused reuse before the deadline, a reuse at the deadline that reads 0, an exhausted manager, rejected
+   arguments and multi-byte UTF-8 labels of 380 and 382 bytes; the geometry holds for
    the largest buffers the harness uses and for 2 GiB-scale ones *)
 Example C15_example_in_contract :
   cfg_ok (mkcfg 3 3 10) = true /\ cfg_ok (mkcfg 16 16 4611686018427387904) = true /\
   cfg_ok (mkcfg 4194302 16777214 0) = true /\
   in_contract (mkcfg 3 3 10) example_ops (run Debug example_ops (mgr0 3 3 10)) spec0 = true /\
   map (fun ob => match ob with OStep r _ _ => r | ODump _ => COk (-2) end) (run Debug example_ops (mgr0 3 3 10)) =
-  [COk 0; COk 1; COk 0; COk 0; COk 0; COk 2; CErr ValuesFull; COk 0; CErr LabelTooLong; CErr KeyTooLong;
-   CErr LabelNotConvertible; COk 0; COk (-2)].
+  [COk 0; COk 1; COk 0; COk 0; COk 0; COk 0; COk 2; CErr ValuesFull; COk 0; CErr LabelTooLong; CErr KeyTooLong;
+   CErr LabelNotConvertible; CErr LabelTooLong; COk 0; COk (-2)] /\
+  nth 13 (run Debug example_ops (mgr0 3 3 10)) (ODump (dump_of (mgr0 0 0 0))) = OStep (COk 0) (COk 0) (COk [0; 1; 2]).
 Proof. vm_compute. auto 10. Qed.
